@@ -21,12 +21,13 @@ import (
 )
 
 type gcase struct {
-	Class string `json:"class"`
-	Kind  string `json:"kind"`
-	Input []int  `json:"input"`
-	Ok    bool   `json:"ok"`
-	Key   []int  `json:"key"`
-	Name  []int  `json:"name"`
+	Class   string `json:"class"`
+	Kind    string `json:"kind"`
+	Input   []int  `json:"input"`
+	Ok      bool   `json:"ok"`
+	Key     []int  `json:"key"`
+	Name    []int  `json:"name"`
+	Payload int    `json:"payload"`
 }
 
 func str(cps []int) string {
@@ -127,15 +128,26 @@ CHECK_DEADLOCK FALSE
 	if res.Violated != "" || !res.OK {
 		vk.Infra("Bech32Gen: %s\n%s", res.Violated, res.Output)
 	}
+	// second run: every printable ASCII character as a one-character name (the class alphabet above has one
+	// representative per class; a table- or regexp-driven check can be wrong for a single character of a class)
+	var all []int
+	for c := 33; c <= 126; c++ {
+		all = append(all, c)
+	}
+	cfg1 := fmt.Sprintf("SPECIFICATION Spec\nCONSTANTS\n Mode = \"plugin\"\n Seed = %d\n NShards = 16\n SubChars = {}\n NameAlphabet = %s\n MaxName = 1\nINVARIANTS Emit\nCHECK_DEADLOCK FALSE\n", run.Seed%200, intSet(all))
+	res1 := run.TLC("names-every-character", vk.TLCOpts{Module: "Bech32Gen", Config: cfg1, Workers: 16})
+	if res1.Violated != "" || !res1.OK {
+		vk.Infra("Bech32Gen: %s\n%s", res1.Violated, res1.Output)
+	}
 	var cases []gcase
 	names := map[string]bool{}
-	for _, l := range res.PrintsWithPrefix("CASE ") {
+	for _, l := range append(res.PrintsWithPrefix("CASE "), res1.PrintsWithPrefix("CASE ")...) {
 		var c gcase
 		if err := json.Unmarshal([]byte(l), &c); err != nil {
 			vk.Infra("bad CASE: %v", err)
 		}
-		if c.Class != "plugin_canon" || len(c.Key) != 5 {
-			continue
+		if c.Class != "plugin_canon" || c.Payload != 5 {
+			continue // one payload length is enough here (C09 covers the payloads); rejected names must stay in
 		}
 		cases = append(cases, c)
 	}
@@ -151,7 +163,7 @@ CHECK_DEADLOCK FALSE
 		}
 		return strings.ToLower(strings.TrimSuffix(strings.TrimPrefix(hrp, "AGE-PLUGIN-"), "-"))
 	}
-	extra := []string{"foo", "Foo", "FOO", "x.y", "X.Y", "../x", "x/../y", ".x", "..", "/pwn", "/../../tmp/pwn", "a/b", "\\pwn", "~/bin/x", "*a", "a b", "a\tb", "é", ""}
+	extra := []string{"a,b", "a:b", "a;b", "a=b", "a@b", "a*", "a&b", "a|b", "a'b", "a\"b", "a(b", "a)b", "a<b", "a>b", "a?b", "a[b", "a]b", "a^b", "a`b", "a{b", "a}b", "a$b", "a#b", "foo", "Foo", "FOO", "x.y", "X.Y", "../x", "x/../y", ".x", "..", "/pwn", "/../../tmp/pwn", "a/b", "\\pwn", "~/bin/x", "*a", "a b", "a\tb", "é", ""}
 	for i := range cases {
 		names[nameOf(&cases[i])] = true
 	}
@@ -196,9 +208,14 @@ CHECK_DEADLOCK FALSE
 			run.Violation("C17:wrong-program-started:"+sig, fmt.Sprintf("name %q (%s): started %v, a PATH search for age-plugin-%s finds %s", name, pos, ran, name, want), rp)
 		}
 	}
+	seenInput := map[string]bool{}
 	for i := range cases {
 		c := &cases[i]
 		s := str(c.Input)
+		if seenInput[s] {
+			continue // names differing only in case give the same identity string; its sentinel log lines are matched by the string
+		}
+		seenInput[s] = true
 		name := nameOf(c)
 		marker := s
 		constructed := false
@@ -344,5 +361,49 @@ func headerMentions(run *vk.Run, e *env, names map[string]bool, w *world.World) 
 	if l := e.logLines(); len(l) > 0 && l[0] != "" {
 		run.Violation("C17:plugin-started-by-header-mention", fmt.Sprintf("decrypting with native identities started %v", l), nil)
 	}
-	run.Add("header_mention_cases", n)
+	// the same through the command line: age -d -i <native key file> on files whose headers mention plugin-like types,
+	// with a key that matches and with one that does not; PATH holds a sentinel for every valid name
+	ageBin := filepath.Join(vk.BuildCLI(), "age")
+	envv := []string{"PATH=" + e.first + ":" + e.second + ":/usr/bin:/bin", "TMPDIR=" + e.tmp}
+	k1, k2 := filepath.Join(e.root, "k1.txt"), filepath.Join(e.root, "k2.txt")
+	os.WriteFile(k1, []byte(id.String()+"\n"), 0o600)
+	os.WriteFile(k2, []byte(w.XIdentity("x2").String()+"\n"), 0o600)
+	cliN := 0
+	for name := range names {
+		if !validName(name) || cliN >= run.Pick(12, 60) {
+			continue
+		}
+		cliN++
+		// a VALID file for x1 whose header also carries a stanza of the plugin-like type (MAC recomputed by encrypting to
+		// a custom recipient that emits it), so that decryption with x1 succeeds and with x2 finds no match
+		var buf bytes.Buffer
+		wc, err := age.Encrypt(&buf, stanzaRecipient{name}, id.Recipient())
+		if err != nil {
+			vk.Infra("%v", err)
+		}
+		wc.Write([]byte("x"))
+		wc.Close()
+		fp := filepath.Join(e.root, "mention.age")
+		os.WriteFile(fp, buf.Bytes(), 0o644)
+		for _, kf := range []string{k1, k2} {
+			os.WriteFile(e.log, nil, 0o644)
+			p := vk.RunProc(20*time.Second, e.cwd, envv, []byte{}, ageBin, "-d", "-i", kf, fp)
+			run.Eval(1)
+			if p.TimedOut {
+				vk.Infra("age -d timed out")
+			}
+			if l := e.logLines(); len(l) > 0 && l[0] != "" {
+				run.Violation("C17:plugin-started-by-header-mention:cli:"+filepath.Base(kf), fmt.Sprintf("age -d -i %s on a file whose header has a stanza of type %q started %v", filepath.Base(kf), name, l), map[string]interface{}{"check": "C17.hdrcli", "type": name})
+			}
+		}
+		run.Distinct("hdr-cli:" + name)
+	}
+	run.Add("header_mention_cases", n+2*cliN)
+}
+
+// stanzaRecipient emits one stanza of the given type (what a plugin recipient of that name would have left in the header).
+type stanzaRecipient struct{ typ string }
+
+func (r stanzaRecipient) Wrap(fileKey []byte) ([]*age.Stanza, error) {
+	return []*age.Stanza{{Type: r.typ, Args: []string{"a"}, Body: []byte{1, 2, 3}}}, nil
 }
